@@ -163,14 +163,14 @@ async def idle_case(part, m, r, script, backend='dict', end='DONE', race=None, l
             m.ask('idle drain 1 8')
             await collect()
         if backend != 'dict':
-            await asyncio.sleep(1.3)          # maildir polls once a second
+            await asyncio.sleep(2.2)          # maildir polls once a second (two polls' worth: the wall clock is all there is here, and the machine may be busy)
             for _ in range(10):
                 parked = [n for n, (lab, f) in sched.parked.items() if lab == 'drain']
                 if not parked:
                     break
                 await sched.release(parked[0])
                 await asyncio.sleep(0.05)
-            await asyncio.sleep(1.2)
+            await asyncio.sleep(2.2)
             for _ in range(10):
                 parked = [n for n, (lab, f) in sched.parked.items() if lab == 'drain']
                 if not parked:
